@@ -19,6 +19,7 @@ import Props.Defs
 import Proofs.Conflict
 import Proofs.ConflictAll
 import Proofs.SeparatedTrans
+import Proofs.Translate
 namespace Coma.Props
 open Coma Coma.Spec
 
@@ -102,5 +103,30 @@ theorem C15_emptied_middle_counterexample :
       (∀ b ∈ bs, b ≠ Branch.interior) ∧
       (match out with | [a, _, c] => sharesLabel a c | _ => false) = true :=
   Coma.Proofs.emptied_middle_counterexample
+
+/-! ### the resolver does not depend on the magnitude of the reference coordinates -/
+
+/-- pairing, scoring and cutting into segments commute with a translation of the reference -/
+theorem C15_segments_translation (P : Params) (ref qry : OMap) (rev : Bool) (it : Int) (peaks : List Int) (d : Int) :
+    segmentsOfPeaks P (Coma.Proofs.shiftRef d ref) qry rev it (peaks.map (· + d))
+      = (segmentsOfPeaks P ref qry rev it peaks).map (List.map (Coma.Proofs.shiftSeg d)) :=
+  Coma.Proofs.segmentsOfPeaks_shift P ref qry rev it peaks d
+
+/-- chaining and conflict resolution of the segments of a candidate commute with a translation of the reference by any
+    `d`: the same segments are chained, the same positions are dropped (a comparison with a tolerance relative to the
+    coordinate breaks this) -/
+theorem C15_resolution_translation (P : Params) (C : ChainCfg) (ref qry : OMap) (rev : Bool) (it : Int) (peaks : List Int)
+    (segs : List Seg) (h : segmentsOfPeaks P ref qry rev it peaks = .ok segs) (d : Int) :
+    resolveConflicts P C (segs.map (Coma.Proofs.shiftSeg d)) = (resolveConflicts P C segs).map (List.map (Coma.Proofs.shiftSeg d)) :=
+  Coma.Proofs.resolveConflicts_shift_factory P C segs d (Coma.Proofs.segmentsOfPeaks_factory P ref qry rev it peaks segs h)
+
+/-- for ARBITRARY segment lists the claim is false: in front of an empty segment the resolver compares reference labels
+    with the null pair (label 0 at coordinate 0), i.e. reads the sign of a coordinate; a non-positive-score segment at
+    coordinate 5 is kept, the same segment at coordinate −5 is emptied.  (Segments cut by the factory have positive
+    suffix scores and are returned unchanged in front of an empty segment, whatever that comparison says.) -/
+theorem C15_translation_null_pair_counterexample :
+    ¬ ∀ (P : Params) (C : ChainCfg) (segs : List Seg) (d : Int),
+      resolveConflicts P C (segs.map (Coma.Proofs.shiftSeg d)) = (resolveConflicts P C segs).map (List.map (Coma.Proofs.shiftSeg d)) :=
+  Coma.Proofs.resolveConflicts_shift_false
 
 end Coma.Props
